@@ -401,6 +401,9 @@ func c06extra() []c06tmpl {
 		// an object appears while start-up is still under way
 		{id: "nslabel-q2", config: "configVersion: v1\nkubernetes:\n- name: kb7\n  kind: ConfigMap\n  namespace: {nameSelector: {matchNames: [n1]}}\n- name: kl7\n  kind: ConfigMap\n  queue: q2\n  namespace: {labelSelector: {matchLabels: {watch: \"yes\"}}}\n",
 			syncs: []string{"sync:kb7", "sync:kl7"}, events: map[string]string{"kb7": "sync:kb7", "kl7": "sync:kl7"}, lateNs: true},
+		// a group whose bindings use a named queue: the group's start-up is still one execution in main
+		{id: "group-q2", config: "configVersion: v1\nkubernetes:\n- name: kg8\n  kind: ConfigMap\n  group: g5\n  queue: q2\n  namespace: {nameSelector: {matchNames: [n1]}}\n- name: kg9\n  kind: ConfigMap\n  group: g5\n  queue: q2\n  namespace: {nameSelector: {matchNames: [n2]}}\n",
+			syncs: []string{"group:g5"}, events: map[string]string{"kg8": "group:g5", "kg9": "group:g5"}},
 		{id: "group-nosync-last", config: "configVersion: v1\nkubernetes:\n- name: kg4\n  kind: ConfigMap\n  group: g3\n  namespace: {nameSelector: {matchNames: [n1]}}\n- name: kgm\n  kind: ConfigMap\n  group: g3\n  executeHookOnSynchronization: false\n  namespace: {nameSelector: {matchNames: [n2]}}\n",
 			syncs: []string{"group:g3"}, events: map[string]string{"kg4": "group:g3", "kgm": ""}},
 	}
